@@ -245,6 +245,7 @@ var slotTags = []string{
 	"`gomacro-data:\"ignore\"`",
 	"`json:\"2fa\"`",
 	"`json:\"1e3\"`",
+	"`json:\"raw_slot\" gomacro-opaque:\"dart\"`",
 	"`json:\"slot_x\" gomacro:\"ignore\"`",
 	"`gomacro:\"ignore\" json:\",omitempty\"`",
 }
@@ -281,6 +282,7 @@ func TypesWith(c explore.Chooser, opt TypesOpt) *prog.Program {
 		rename["Red"] = v
 	}
 
+	twins := s.Pick("twin-container", "no", "yes")
 	extraEnums := s.Pick("enum.extra-pair", "none", "negative-then-iota")
 	enumForm := s.Pick("enum.form", "iota-uint8", "explicit-int-unexported-middle", "string", "alias-member", "unexported-first", "other-file", "negative", "bool-backed", "float-backed", "dup-values", "flagged-default-first", "flagged-default-middle")
 	unionForm := s.Pick("union.members", "2-structs", "1-struct", "named-int-member", "named-slice-member", "named-map-member", "pointer-receiver-non-member", "extra-marker-method", "enum-member", "member-in-other-file", "member-by-embedding", "generic-phantom-member")
@@ -530,6 +532,10 @@ func TypesWith(c explore.Chooser, opt TypesOpt) *prog.Program {
 		embField = "\tCount\n"
 	}
 
+	if twins == "yes" {
+		// a second named slice of the union whose name differs from Shapes by the case of its first letter only
+		add("type shapes []Shape")
+	}
 	if extraEnums == "negative-then-iota" {
 		// an enum with a large member sorted before a negative one, next to an iota-like enum whose
 		// names are not in value order (what one enum leaves behind must not reach the next one)
